@@ -57,6 +57,7 @@ def run(tier, rep, ev):
         for enc, tgt in variants:
             cases.append({"shape": shape, "calls": calls, "password": "pw" if enc else None, "target": tgt,
                           "ending": ["close", "with", "exception"][i % 3], "seed": i % 7, "coder": ["lzma2", "copy", "bzip2"][i % 3],
+                          "packcrc": (i // 3) % 2 == 0,
                           "wd": os.path.join(base, f"s{len(cases)}")})
     # random longer sequences on random shapes
     names = ["getnames", "list", "getinfo", "archiveinfo", "test", "testzip", "extractall", "extract", "reset", "needs_password"]
@@ -78,6 +79,7 @@ def run(tier, rep, ev):
         calls = calls[:6]
         cases.append({"shape": shape, "calls": calls, "password": R.choice([None, None, "pw"]), "target": R.choice(["path", "stream"]),
                       "ending": R.choice(["close", "with", "exception"]), "seed": i, "coder": R.choice(["lzma2", "copy", "deflate", "bzip2"]),
+                      "packcrc": R.random() < 0.5,
                       "wd": os.path.join(base, f"r{i}")})
     ev.sample({"tlc_sequence": behs[len(behs) // 2]["calls"]})
     _read.run_and_validate("C12", cases, rep, ev, validate)
